@@ -147,6 +147,14 @@ def build_cases(chk):
     for b in ("slurm", "sge", "lsf", "local"):
         cases.append({"backend": b, "accounting": True, "jobs": [{"target": "Fresh", "stale": False, "queue": "R" if b == "slurm" else {"sge": "r", "lsf": "RUN", "local": "running"}[b], "acct": None, "tracked": False},
                                                                   {"target": "Stale", "stale": True, "queue": None, "acct": None, "in_scheduler": False}]})
+    # a tracked job the scheduler has forgotten AHEAD of jobs it still knows: each target is judged by its own job
+    for b, codes in (("lsf", ("EXIT", "RUN", "DONE")), ("sge", ("r", "qw", "Eqw")), ("slurm", ("F", "R", "PD"))):
+        cases.append({"backend": b, "accounting": True, "jobs":
+                      [{"target": "A0", "stale": False, "queue": None, "acct": None, "in_scheduler": False},
+                       {"target": "B1", "stale": False, "queue": codes[0], "acct": None},
+                       {"target": "C2", "stale": True, "queue": codes[1], "acct": None},
+                       {"target": "D3", "stale": False, "queue": None, "acct": None, "in_scheduler": False},
+                       {"target": "E4", "stale": True, "queue": codes[2], "acct": None}]})
     # transitions across invocations
     cases.append(two("slurm", "PD", "PENDING", True, second={"1000": ("R", "RUNNING"), "1001": (None, "FAILED")}))
     cases.append(two("slurm", "R", "RUNNING", True, second={"1000": (None, "COMPLETED"), "1001": (None, "CANCELLED by 0")}))
